@@ -21,6 +21,7 @@ type websocket struct {
 
 	socket *types.WebSocketConn
 	mu     sync.Mutex
+	start  sync.Once
 }
 
 // WebSocket transport
@@ -32,7 +33,19 @@ func MakeWebSocket() Websocket {
 	return w
 }
 
+// The transport reads its connection at once, as it always did: attach the
+// listeners to ctx.Websocket / the transport's consumer first, or use
+// [NewDeferredWebSocket] and call Start.
 func NewWebSocket(ctx *types.HttpContext) Websocket {
+	w := NewDeferredWebSocket(ctx)
+
+	w.Start()
+
+	return w
+}
+
+// A WebSocket transport that does not read before Start is called.
+func NewDeferredWebSocket(ctx *types.HttpContext) Websocket {
 	w := MakeWebSocket()
 
 	w.Construct(ctx)
@@ -52,10 +65,14 @@ func (w *websocket) Construct(ctx *types.HttpContext) {
 		w.OnClose()
 	})
 
-	go w.message()
-
 	w.SetWritable(true)
 	w.SetPerMessageDeflate(nil)
+}
+
+// Starts reading the connection. The consumer calls this once its listeners
+// are attached; later calls do nothing.
+func (w *websocket) Start() {
+	w.start.Do(func() { go w.message() })
 }
 
 // Transport name
